@@ -481,6 +481,13 @@ fn recover(
                 let pn = ht_offsets.data_page_index(bucket);
 
                 let mut page = io::read_page(page_pool, ht_fd, pn)?;
+                if meta_map_changed {
+                    // The bucket did not hold this page before the interrupted sync: whatever
+                    // it contains belongs to a page that was cleared earlier. The diff is
+                    // relative to an empty page, so start from one; otherwise the stale nodes
+                    // which the diff does not touch would survive in the recovered page.
+                    page.fill(0);
+                }
                 if page_diff.count() != changed_nodes.len() {
                     anyhow::bail!(
                         "mismatched number of changed nodes: {} != {}",
